@@ -193,14 +193,23 @@ def expand(pool, key, calls, results):
 
 def run(tier):
     chk = Check(PROP, tier)
-    write_conc_input(chk)
-    # the footprints are extracted from the current tree (B3), so a violated invariant of this
-    # model is a finding about the code, not about the design
-    r = core.tlc_mc(chk.rd, "MC_Conc", cfg="MC_Conc.cfg" if tier == "thorough" else "MC_Conc_quick.cfg", timeout=3000,
-                    allow_violation=True)
-    chk.states += r["distinct"]
-    chk.transitions += r["generated"]
-    chk.models.append(dict(module="MC_Conc", generated=r["generated"], distinct=r["distinct"], wall_s=round(r["wall"], 1)))
+    # If the abstract machine cannot interpret the current assembly, the footprints (and with them the interleaving
+    # model) are not available: that is not a verdict - the concurrent executions below still decide; only when they
+    # find nothing is the run inconclusive (exit 2).
+    deferred = None
+    try:
+        write_conc_input(chk)
+        # the footprints are extracted from the current tree (B3), so a violated invariant of this
+        # model is a finding about the code, not about the design
+        r = core.tlc_mc(chk.rd, "MC_Conc", cfg="MC_Conc.cfg" if tier == "thorough" else "MC_Conc_quick.cfg", timeout=3000,
+                        allow_violation=True)
+        chk.states += r["distinct"]
+        chk.transitions += r["generated"]
+        chk.models.append(dict(module="MC_Conc", generated=r["generated"], distinct=r["distinct"], wall_s=round(r["wall"], 1)))
+    except core.Infra as e:
+        deferred = e
+        chk.notes.append("footprint model not completed: %s" % str(e)[:300])
+        r = dict(ok=True)
     if not r["ok"]:
         import re
         m = re.search(r"Invariant (\w+) is violated", r["out"])
@@ -253,6 +262,8 @@ def run(tier):
     chk.events += 1
     for x in bad:
         chk.add_failure("concurrent." + x["why"].split(": ")[1].replace(" ", "_"), x["why"], dict(commands=cmds, why=x["why"]))
+    if deferred is not None and not chk.bad:
+        raise deferred
     chk.classes = {"concurrent_calls": len(results), "workers": 16, "repetitions": b["reps"]}
     chk.samples.append(dict(calls=b["calls"][:6], results=[{k: (v if not isinstance(v, list) else v[:8]) for k, v in r.items()} for r in results[:3]]))
     return chk.finish(
